@@ -155,6 +155,11 @@ def check(run):
     for lab, T in structured_transforms(rng, sum(s_.size for s_ in specs)):
         one_case(run, specs, pts, q, kinds, T)
         run.count("transform " + lab)
+    from checks.common import structural_families
+    for lab, sp_, T in structural_families(run):
+        pts, q, kinds = place_charges(rng, sp_, 2)
+        one_case(run, sp_, pts, q, kinds, T)
+        run.count(lab)
     from checks.common import custom_order_family
     for k in range(2 if run.tier == "quick" else 8):
         sp_ = custom_order_family(rng, (2, 1) if k % 2 else (1, 3))
